@@ -155,6 +155,10 @@ def units(tier):
     from .c01 import two_units
 
     u += two_units()
+    from .c09 import h_long
+
+    for kind in ("string", "bytes", "message", "packed", "map"):
+        u.append(("long-payload[%s]" % kind, h_long, {"kind": kind}))
     return u
 
 
